@@ -149,8 +149,9 @@ def run(tier, seed, t0):
     # block boundaries of the counter-mode KDF: 1, 2, 3 and 4 hash blocks, exact multiples and one past them
     kl = [1, 16, 32, 33, 64, 65, 97] if tier == "quick" else list(range(1, 131))
     jobs = [ob_1a, ob_agreement] + [(lambda k=k: ob_1b(k)) for k in kl] + [(lambda k=k: ob_2a(k)) for k in kl]
-    import c13
+    import c13, c05
     jobs += [lambda: c13.g1_ob("is_on_curve", 1, c13.chk_on_curve, "is_on_curve")]
+    jobs += [(lambda k=k: c05.ob_kdf(64, k, crate=CRATE, fname="kdf")) for k in (8160, 8161)]     # one-byte counter boundary of the KDF
     res = run_parallel(jobs, nproc=14)
     return finish("C17", tier, seed, "model_checking", res, t0,
                   assumptions=["pairing and group layers uninterpreted (C12/C13); identities of 5 and 3 bytes (the framing is length-agnostic concatenation)", "klen >= 1 (klen = 0 is outside the property; see C20)",
